@@ -97,4 +97,17 @@ PROPS["C14"] = {
     "assumptions": COMMON_ASSUMPTIONS + [RUNTIME_NOTE],
 }
 
+PROPS["C17"] = {
+    "families": ["C17"],
+    "gen_deps": ["openflow13.oxxFieldHeaderMap", "openflow13.newMatchFieldHeader"],
+    "rule": "reg0: every window (offset,width) inside 32 bits (528) x values 0,1,2^w-1,random; register comparison against NewRegMatchField for every "
+            "window; every registered field x {no mask with 0,1,max,random; 12 windows incl. full field and top bit x shift / no-shift / one-argument "
+            "forms; too-wide value, window beyond field, value wider than window, negative value, negative / huge mask arguments, >3 arguments; argument "
+            "kinds uint8..uint64, int8..int64, int, []byte, *big.Int with the argument re-read after the call}. Non-trivial = a field was built.",
+    "trivial_outputs": ["err", "err arg=1", "err arg=-1"],
+    "level_text": "Kernel-checked theorems over a model of NewMatchField with unbounded integers (math/big = Int/Nat): totality (for ANY name, integer and mask arguments the result is a field or an error, never a panic or an endless computation); for every window inside the field the value bytes are v*2^s, the mask bytes exactly the window, value has no bit outside the mask, both L bytes; no-mask form; every class of unrepresentable input (too wide, window beyond the field, value wider than its window, negative value, negative argument, unknown name, more than three arguments) is an error. Tie: the real generic function (10 instantiations) is run on all generated cases and compared with the model; an independent oracle recomputes the expected payload bytes from the specification table and demands an error for unrepresentable input; the caller's argument is re-read after each call.",
+    "level_note": "The theorems are about the code after the repair commit 29c7516 (fix: in /repo). Trusted: Lean kernel; math/big modelled by Int/Nat (Lsh, And, BitLen, Bytes, Cmp on non-negative values); the registry lookup model (C15). Equality with NewRegMatchField is checked differentially on every window (the theorem needs the match-field encoder model).",
+    "assumptions": COMMON_ASSUMPTIONS + ["math/big semantics as modelled in OFV.Model.MatchFieldGen"],
+}
+
 NOT_YET = {}
